@@ -334,9 +334,86 @@ def isOpChar (c : Char) : Bool :=
 
 def isParenOp (o : Operator) : Bool := o == .OpenParen || o == .CloseParen
 
+/-- some lexeme of `OPERATORS` continues the lexeme `lex` with the character `c` (then the two run together:
+    `<` `=`, `-` `-`, `+` `+=`, `<` `<=`) -/
+def opGlue (lex : List Char) (c : Char) : Bool := operators.any fun q => (lex ++ [c]).isPrefixOf q.1
+
+theorem table_facts :
+    operators.Pairwise (fun a q => ¬ (a.1 <+: q.1 ∧ a.1 ≠ q.1)) ∧ (operators.map (·.1)).Nodup ∧
+    (∀ p ∈ operators, ∀ c, p.1.head? = some c → isWhitespace c = false) ∧
+    (∀ o : Operator, (lexemeOf o, o) ∈ operators) := by
+  refine ⟨by decide, by decide, by decide, fun o => by cases o <;> decide⟩
+
+theorem lexeme_inj : ∀ p ∈ operators, ∀ q ∈ operators, p.1 = q.1 → p = q := by decide
+
+theorem lexemeOf_cons (o : Operator) : ∃ c0 u0, lexemeOf o = c0 :: u0 := by
+  cases o <;> exact ⟨_, _, rfl⟩
+
+/-- first match = longest match (as `longest_match` in `Theorems.lean`, needed here already) -/
+theorem findOp_longest (s lex : List Char) (o : Operator) (h : findOp s = some (lex, o)) :
+    (lex, o) ∈ operators ∧ lex <+: s ∧ ∀ q ∈ operators, q.1 <+: s → q.1.length ≤ lex.length := by
+  unfold findOp at h
+  rw [List.find?_eq_some_iff_append] at h
+  obtain ⟨hp, as, bs, hsplit, hbefore⟩ := h
+  have hpre : lex <+: s := by simpa [List.isPrefixOf_iff_prefix] using hp
+  refine ⟨by rw [hsplit]; simp, hpre, ?_⟩
+  intro q hq hqs
+  have hpw := table_facts.1
+  rw [hsplit, List.pairwise_append] at hpw
+  obtain ⟨_, hcons, _⟩ := hpw
+  rw [List.pairwise_cons] at hcons
+  rw [hsplit, List.mem_append, List.mem_cons] at hq
+  rcases hq with hq | hq | hq
+  · have := hbefore q hq
+    have hb := List.isPrefixOf_iff_prefix.mpr hqs
+    simp only [Bool.not_eq_true'] at this
+    rw [this] at hb; exact absurd hb (by decide)
+  · subst hq; exact Nat.le_refl _
+  · have hr := hcons.1 q hq
+    by_cases hlen : q.1.length ≤ lex.length
+    · exact hlen
+    · exfalso
+      apply hr
+      have hle : lex.length ≤ q.1.length := by omega
+      refine ⟨List.prefix_of_prefix_length_le hpre hqs hle, ?_⟩
+      intro e
+      simp only at e
+      rw [e] at hlen
+      exact hlen (Nat.le_refl _)
+
+/-- an operator followed by a character that continues no lexeme is read as that operator -/
+theorem findOp_of_not_glue (o : Operator) (c : Char) (rest : List Char) (hg : opGlue (lexemeOf o) c = false) :
+    findOp (lexemeOf o ++ c :: rest) = some (lexemeOf o, o) := by
+  have hmem := table_facts.2.2.2 o
+  have hpre : lexemeOf o <+: lexemeOf o ++ c :: rest := List.prefix_append _ _
+  cases hf : findOp (lexemeOf o ++ c :: rest) with
+  | none =>
+    unfold findOp at hf
+    rw [List.find?_eq_none] at hf
+    have := hf _ hmem
+    simp only [List.isPrefixOf_iff_prefix.mpr hpre, not_true_eq_false] at this
+  | some r =>
+    obtain ⟨lex', o'⟩ := r
+    obtain ⟨hm', hp', hmax⟩ := findOp_longest _ _ _ hf
+    have hle : (lexemeOf o).length ≤ lex'.length := hmax _ hmem hpre
+    by_cases hlt : (lexemeOf o).length < lex'.length
+    · exfalso
+      have h1 : lexemeOf o ++ [c] <+: lexemeOf o ++ c :: rest := by
+        have : lexemeOf o ++ c :: rest = (lexemeOf o ++ [c]) ++ rest := by simp
+        rw [this]; exact List.prefix_append _ _
+      have h2 : lexemeOf o ++ [c] <+: lex' :=
+        List.prefix_of_prefix_length_le h1 hp' (by simp; omega)
+      unfold opGlue at hg
+      rw [List.any_eq_false] at hg
+      exact hg _ hm' (List.isPrefixOf_iff_prefix.mpr h2)
+    · have heq : lex' = lexemeOf o :=
+        (List.prefix_of_prefix_length_le hp' hpre (by omega)).eq_of_length (by omega)
+      subst heq
+      rw [lexeme_inj _ hm' _ hmem rfl]
+
 /-- what may directly follow the text of a token without changing how it is read -/
 def Terminates : Tok → List Char → Prop
-  | .op o, c :: _ => isParenOp o = true ∨ isOpChar c = false
+  | .op o, c :: _ => isParenOp o = true ∨ isOpChar c = false ∨ opGlue (lexemeOf o) c = false
   | .term _, c :: _ => isTermChar c = false
   | _, _ => True
 
@@ -371,10 +448,25 @@ theorem nextToken_op_general (o : Operator) (rest : List Char) (h : Terminates (
     · cases o <;> first
         | (simp [isParenOp] at hp; done)
         | simp [nextToken, lexemeOf, operators, findOp, List.find?, List.isPrefixOf, List.dropWhile, isWhitespace]
-    · have hc : isOpChar c = false := by
-        rcases h with h | h
+    · by_cases hgl : opGlue (lexemeOf o) c = false ∧ isOpChar c = true
+      · -- a character that could start an operator but continues no lexeme after this one
+        have hf := findOp_of_not_glue o c r hgl.1
+        obtain ⟨c0, u0, hl0⟩ := lexemeOf_cons o
+        have hws : isWhitespace c0 = false :=
+          table_facts.2.2.1 _ (table_facts.2.2.2 o) c0 (by simp [hl0])
+        have hdw : (lexemeOf o ++ c :: r).dropWhile isWhitespace = lexemeOf o ++ c :: r := by
+          rw [hl0]; simp [List.dropWhile, hws]
+        unfold nextToken
+        simp only [hdw, hf]
+        rw [hl0]
+        simp
+      have hc : isOpChar c = false := by
+        rcases h with h | h | h
         · exact absurd h hp
         · exact h
+        · cases hoc : isOpChar c with
+          | false => rfl
+          | true => exact absurd ⟨h, hoc⟩ hgl
       obtain ⟨h1, h2, h3, h4, h5, h6, h7, h8, h9, h10, h11, h12, h13, h14, h15⟩ := opChar_ne c hc
       have b1 : ('+' == c) = false := beq_eq_false_iff_ne.mpr (Ne.symm h1)
       have b2 : ('-' == c) = false := beq_eq_false_iff_ne.mpr (Ne.symm h2)
@@ -534,11 +626,15 @@ def flatten : List Piece → List Char
   | p :: ps => p.text ++ (p.sep ++ flatten ps)
 
 /-- two tokens that may stand next to each other without white space: a term and an operator (either
-    order), or two operators one of which is a parenthesis -/
+    order), or two operators one of which is a parenthesis, or (wave 3) two operators such that no lexeme of
+    `OPERATORS` continues the first one with the first character of the second (`a<-b`, `x=-1`, `a*-b`, `1?-2:+3`;
+    NOT `a- -b`, `a+ ++b`, `a< <b`, `x= =1`) — `operators_touch_exactly_when_opGlue` shows that this is also
+    necessary -/
 def glueSafe : Tok → Tok → Prop
   | .term _, .op _ => True
   | .op _, .term _ => True
-  | .op o, .op o' => isParenOp o = true ∨ isParenOp o' = true
+  | .op o, .op o' => isParenOp o = true ∨ isParenOp o' = true ∨
+      ∀ c, (lexemeOf o').head? = some c → opGlue (lexemeOf o) c = false
   | _, _ => False
 
 def PiecesOK : List Piece → Prop
@@ -554,7 +650,7 @@ theorem pieces_terminate (p : Piece) (ps : List Piece) (h : PiecesOK (p :: ps)) 
   | cons a r =>
     have ha := hws a (by rw [hsep]; simp)
     cases htok : p.tok with
-    | op o => simp only [List.cons_append, Terminates]; exact Or.inr (ws_not_op a ha)
+    | op o => simp only [List.cons_append, Terminates]; exact Or.inr (Or.inl (ws_not_op a ha))
     | term tm => simp only [List.cons_append, Terminates]; exact ws_not_term a ha
     | err => trivial
   | nil =>
@@ -576,13 +672,15 @@ theorem pieces_terminate (p : Piece) (ps : List Piece) (h : PiecesOK (p :: ps)) 
         cases hqt : q.tok with
         | err => rw [hqt] at hq; exact absurd hq (by simp [Spells])
         | term tm =>
-          exact Or.inr (hclsT tm hqt).2
+          exact Or.inr (Or.inl (hclsT tm hqt).2)
         | op o' =>
-          rw [hqt] at hg
+          rw [hqt] at hg hq
           simp only [glueSafe] at hg
-          rcases hg with hg | hg
+          rcases hg with hg | hg | hg
           · exact Or.inl hg
-          · exact Or.inr ((hclsO o' hqt).2 hg)
+          · exact Or.inr (Or.inl ((hclsO o' hqt).2 hg))
+          · simp only [Spells] at hq
+            exact Or.inr (Or.inr (hg c (by rw [← hq, hc]; rfl)))
       | term tm =>
         simp only [Terminates]
         rw [htok] at hg
